@@ -194,4 +194,17 @@ example : verifyRangeHelper 16 0x6a0000000064 4 4 = some 0x6a0000000064 := by de
 example : checkRange 16 0x6a000000fff0 16 = true ∧ checkRange 16 0x6a000000fff0 17 = false := by decide
 example : memsetOp 16 (2 ^ 16) 0x6a0000000000 (2 ^ 16) = some [(0x6a0000000000, 2 ^ 16)] := by decide
 
+/-- `copy_memory_or_deny_access` with `free_source_on_copy`: the application's copy holds exactly the source
+bytes as they were at the call -- "carried out on exactly those bytes" -- whatever the sandbox's `free` then
+writes into the block it gets back, and the sandbox memory afterwards is what `free` made of it. -/
+theorem C10_deny_copy_before_free (mem : Nat → Nat) (free : (Nat → Nat) → (Nat → Nat)) (q n : Nat) (b : Bool) :
+    (denyCopyMem mem free q n b).1.length = n ∧
+    (∀ i, i < n → (denyCopyMem mem free q n b).1[i]? = some (mem (q + i))) ∧
+    (denyCopyMem mem free q n b).2 = (if b then free mem else mem) := by
+  refine ⟨by simp [denyCopyMem], fun i hi => ?_, rfl⟩
+  simp [denyCopyMem, hi]
+
+example : (denyCopyMem (fun a => a % 7) (fun _ _ => 0xDD) 100 4 true).1 = [2, 3, 4, 5] ∧
+    (denyCopyMem (fun a => a % 7) (fun _ _ => 0xDD) 100 4 true).2 101 = 0xDD := by decide
+
 end Rlbox.C10
